@@ -870,6 +870,50 @@ func main() {
 			}
 		})
 	}
+	// (iii-b) many levels: eleven binary operators and a prefix operator on twelve levels (level numbers with two
+	// digits), in the written order and reversed, one operator per level and two per level, associativities in rotation
+	// and all left: every expression with up to two operators must be parsed as precedence climbing says
+	{
+		binary := []string{"+", "-", "*", "/", "%", "^", "&", "|", "<", ">", "="}
+		prefix := "!"
+		bin := map[string]bool{}
+		for _, b := range binary {
+			bin[b] = true
+		}
+		all := append(append([]string{}, binary...), prefix)
+		exprs := expressions(binary, prefix, 2)
+		rot := []string{"left", "right"}
+		for variant := 0; variant < 6; variant++ {
+			ops := append([]string{}, all...)
+			if variant%2 == 1 {
+				for i, j := 0, len(ops)-1; i < j; i, j = i+1, j-1 {
+					ops[i], ops[j] = ops[j], ops[i]
+				}
+			}
+			per := 1
+			if variant >= 4 {
+				per = 2
+			}
+			var levels []opLevel
+			for i := 0; i < len(ops); i += per {
+				a := "left"
+				if variant >= 2 {
+					a = rot[(i/per)%2]
+				}
+				levels = append(levels, opLevel{assoc: a, ops: ops[i : i+per]})
+			}
+			if quick && variant != 0 && variant != 3 && variant != 5 {
+				continue
+			}
+			if !mine() {
+				continue
+			}
+			lv := levels
+			checkGrammar(r, operatorGrammar(binary, prefix, levels), "operators_many_levels", 3, exprs, func(in []string) ([]string, bool) {
+				return pratt(lv, bin, prefix, in)
+			})
+		}
+	}
 	// (iv) grammars whose operators do not conflict with themselves (prefix, postfix, dangling else), so that the only
 	// conflicts are BETWEEN different handles: every ordered partition of the handles into levels x every assignment of
 	// @left / @right / @none; two handles sharing one @none level must leave their conflict unresolved.
